@@ -32,7 +32,7 @@ C = {
  "C19": ("model_checking", ["E3", "E1"], "bounded-exhaustive histories over up to three live iterators (fresh and cloned) on one collection vs. one reference cursor per iterator, with address checks + all interleavings of clone() racing with pulls on the original", "Every delivered reference points at the collection's element, iterators and clones progress independently (all are queried after every step), the collection is intact afterwards. Concurrent leg: a clone made while other threads pull never panics, delivers exactly the positions p..len in order with p a position the original had during the call, and leaves the original's exactly-once / order oracles intact.", "5/C19, 11.11"),
 }
 NOTE = {
- "E1": "trusted: the scheduler/shim in /verif/engine, the harness oracles, rustc; assumes SC interleavings + vector-clock happens-before, assumption SPIN (double-checked), bounds stated in the evidence",
+ "E1": "trusted: the scheduler/shim in /verif/engine, the harness oracles, rustc; assumes SC interleavings + vector-clock happens-before, assumption SPIN (double-checked), compare_exchange_weak modelled with one fixed spurious failure per thread and location, bounds stated in the evidence",
  "E3": "trusted: the reference cursor (seq/src/exec.rs), the ledgers, rustc; single-threaded, bounded depth / lengths / chunk sizes as stated in the evidence",
  "E4": "trusted: rustc's type and borrow checker; finite family of programs",
 }
